@@ -172,7 +172,7 @@ def run(ctx):
             traces.append(trace)
 
     go("tm/tmp2p/tmlibp2p", "TestVerifC20(Map|Net)", ["map", "net"],
-       {"VERIF_STARTUP_REPS": "3" if quick else "30", "VERIF_STRESS_MS": "1500" if quick else "40000",
+       {"VERIF_STARTUP_REPS": "14" if quick else "60", "VERIF_STRESS_MS": "1500" if quick else "40000",
         "VERIF_STRESS_TRACED": "300" if quick else "2500", "VERIF_MAX_BEH": "100000"}, 1800)
     go("tm/tmp2p/tmp2ptest", "TestVerifC20Daisy", ["daisy"],
        {"VERIF_STRESS_MS": "800" if quick else "20000", "VERIF_STRESS_TRACED": "300" if quick else "2500",
